@@ -95,23 +95,32 @@ func runC15(w *World, c *Check) {
 
 	// ---- byte order ---------------------------------------------------------------------
 	if fn := w.Func("credentials.(*CCache).Unmarshal"); fn != nil {
+		// the selection may live in a helper extracted from Unmarshal: the rule follows it there
+		// (the helper's version parameter reads as the caller's argument)
 		fa := NewFuncAn(w, fn)
-		v1 := fa.MatchGuard(EqPass("1", ver))
-		v2 := fa.MatchGuard(EqPass("2", ver))
-		nat := fa.MatchGuard(TruePass(`credentials\.isNativeEndianLittle\(\)`))
-		var le []ssa.Instruction
-		for _, b := range fn.Blocks {
-			for _, in := range b.Instrs {
-				if v, ok := in.(*ssa.UnOp); ok && strings.Contains(fa.R.R(v), "encoding/binary.LittleEndian") {
-					le = append(le, in)
+		ok := false
+		for _, sub := range fa.withNewHelpers() {
+			var le []ssa.Instruction
+			for _, b := range sub.Fn.Blocks {
+				for _, in := range b.Instrs {
+					if v, isU := in.(*ssa.UnOp); isU && strings.Contains(sub.R.R(v), "encoding/binary.LittleEndian") {
+						le = append(le, in)
+					}
 				}
 			}
-		}
-		ok := len(le) > 0 && len(nat) > 0 && len(v1) > 0 && len(v2) > 0
-		for _, in := range le {
-			if fa.PathToInstrAvoiding(nat, in) != nil || fa.PathToInstrAvoiding(append(append([]Edge{}, v1...), v2...), in) != nil {
-				ok = false
+			if len(le) == 0 {
+				continue
 			}
+			v1 := sub.MatchGuard(EqPass("1", ver))
+			v2 := sub.MatchGuard(EqPass("2", ver))
+			nat := sub.MatchGuard(TruePass(`credentials\.isNativeEndianLittle\(\)`))
+			ok = len(nat) > 0 && len(v1) > 0 && len(v2) > 0
+			for _, in := range le {
+				if sub.PathToInstrAvoiding(nat, in) != nil || sub.PathToInstrAvoiding(append(append([]Edge{}, v1...), v2...), in) != nil {
+					ok = false
+				}
+			}
+			break
 		}
 		c.Decide(ok, "C15.endian", FuncKey(fn), "byte-order", w.Pos(fn.Pos()), "little-endian only for versions 1 or 2 on a little-endian host; big-endian otherwise", "LittleEndian is selected outside `(version == 1 || version == 2) && isNativeEndianLittle()`")
 		// magic and version range
@@ -129,23 +138,12 @@ func runC15(w *World, c *Check) {
 			c.Missing("C15.accessors", fk)
 			continue
 		}
-		fa := NewFuncAn(w, fn)
-		eq := fa.MatchGuard(TruePass(`types\.\(PrincipalName\)\.Equal\(recv\.Credentials\[\$i0\]\.Server\.PrincipalName, p\)|types\.\(PrincipalName\)\.Equal\(p, recv\.Credentials\[\$i0\]\.Server\.PrincipalName\)`))
-		good := len(eq) > 0
-		if good {
-			// a positive answer only through the match
-			var pos []Exit
-			for _, x := range fa.Exits() {
-				rs := RetResults(x.Ret)
-				if v, known := fa.knownBool(rs[len(rs)-1], x.In); !known || v {
-					pos = append(pos, x)
-				}
-			}
-			if len(pos) == 0 || fa.PathAvoiding(eq, pos) != nil {
-				good = false
-			}
-		}
-		c.Decide(good, "C15.accessors", fk, "server-principal-match", w.Pos(fn.Pos()), "a credential is found only when its server principal equals the argument", "a positive result is reachable without Server.PrincipalName.Equal(p)")
+		// a positive answer only through the match — in the function, in a helper, or in the sibling
+		// accessor it delegates to (decided by scenario: with the match failing no true result is reachable)
+		checkGuards(w, c, "C15.accessors", fk, trueExitClass(fn.Signature.Results().Len()-1), []GuardSpec{
+			{Name: "server-principal-match", Desc: "a credential is found only when its server principal equals the argument",
+				Main: []GuardPat{TruePass(`types\.\(PrincipalName\)\.Equal\(recv\.Credentials\[\$i0\]\.Server\.PrincipalName, p\)`), TruePass(`types\.\(PrincipalName\)\.Equal\(p, recv\.Credentials\[\$i0\]\.Server\.PrincipalName\)`)}},
+		})
 	}
 	if fn := w.Func("credentials.(*CCache).GetEntries"); fn == nil {
 		c.Missing("C15.accessors", "credentials.(*CCache).GetEntries")
@@ -160,6 +158,7 @@ func runC15(w *World, c *Check) {
 		c.Missing("C15.accessors", "credentials.(*CCache).GetClientCredentials")
 	} else {
 		fa := NewFuncAn(w, fn)
+		fa.R.inlineGetters = true // c.GetClientPrincipalName() ≡ c.DefaultPrincipal.PrincipalName
 		got := map[string]string{}
 		for _, st := range fa.storesTo(`.*\.(username|realm|cname)`) {
 			a := fa.R.R(st.Addr)
